@@ -12,7 +12,7 @@ from __future__ import annotations
 
 import ast
 
-from .model import Model, Func, norm, call_args, own_returns
+from .model import Model, Func, norm, call_args, own_returns, own_walk
 from .report import Ob, OK, VIOLATED, ERROR, INFO
 
 
@@ -24,6 +24,13 @@ def _is_norm_call(e):
     if t.endswith("linalg.norm") or t in ("tn.norm", "torch.norm"):
         return True
     return isinstance(e.func, ast.Attribute) and e.func.attr == "norm" and not e.args and not e.keywords
+
+
+def _norm_operand(e):
+    """the expression whose norm a norm call takes (function or method spelling)"""
+    if e.args:
+        return e.args[0]
+    return e.func.value if isinstance(e.func, ast.Attribute) else None
 
 
 def _trackers(f: Func):
@@ -55,6 +62,23 @@ def _positive_const(e):
     return isinstance(e, ast.Constant) and isinstance(e.value, (int, float)) and e.value > 0
 
 
+def _positivity_test(test, var):
+    """True: the test holds when `var` is positive (var > 0, 0 < var); False: it holds when it is not (not var > 0, var <= 0, var == 0);
+    None: not a test of the sign of `var`"""
+    if isinstance(test, ast.UnaryOp) and isinstance(test.op, ast.Not):
+        inner = _positivity_test(test.operand, var)
+        return None if inner is None else (not inner)
+    if not (isinstance(test, ast.Compare) and len(test.ops) == 1):
+        return None
+    l, op, r = test.left, test.ops[0], test.comparators[0]
+    zero = lambda e: isinstance(e, ast.Constant) and not isinstance(e.value, bool) and e.value == 0
+    if norm(l) == var and zero(r):
+        return True if isinstance(op, ast.Gt) else False if isinstance(op, (ast.LtE, ast.Eq)) else None
+    if norm(r) == var and zero(l):
+        return True if isinstance(op, ast.Lt) else False if isinstance(op, (ast.GtE, ast.Eq)) else None
+    return None
+
+
 def _sanitised(block, idx, var):
     """is `var` known positive at block[idx]?  scan backwards to its norm definition"""
     for j in range(idx - 1, -1, -1):
@@ -72,9 +96,11 @@ def _sanitised(block, idx, var):
                 return _sanitised(block, j, v.id)      # a plain copy `n = m`: positive when m is
             return False        # re-defined (by the norm itself or something else) without sanitising
         # if n > 0: ... else: n = 1.0
-        if isinstance(s, ast.If) and isinstance(s.test, ast.Compare) and norm(s.test.left) == var and isinstance(s.test.ops[0], ast.Gt):
-            assigns_pos = any(isinstance(x, ast.Assign) and norm(x.targets[0]) == var and _positive_const(x.value) for x in s.orelse)
-            redefines = any(isinstance(x, (ast.Assign, ast.AugAssign)) and norm(getattr(x, "target", None) or x.targets[0]) == var for x in s.body)
+        pol = _positivity_test(s.test, var) if isinstance(s, ast.If) else None
+        if pol is not None:
+            pos, nonpos = (s.body, s.orelse) if pol else (s.orelse, s.body)
+            assigns_pos = any(isinstance(x, ast.Assign) and norm(x.targets[0]) == var and _positive_const(x.value) for x in nonpos)
+            redefines = any(isinstance(x, (ast.Assign, ast.AugAssign)) and norm(getattr(x, "target", None) or x.targets[0]) == var for x in pos)
             if assigns_pos and not redefines:
                 return True
             return False
@@ -729,4 +755,168 @@ def rule_residual_gauge(model: Model, fshort: str, rule="RESIDUAL-GAUGE"):
                       f"the random train `{nm}` enters the sweeps as drawn: the first half sweep QR-factors its cores one by one and shrinks a rank "
                       "whenever rz[k] > N[k]*rz[k+1] (small trailing modes) without carrying the R factor to the neighbouring core - the next "
                       "reshape then fails (RuntimeError for valid systems); rl_orthogonal establishes rz[k] <= N[k]*rz[k+1] beforehand"))
+    return obs
+
+
+# --------------------------------------------------------------------------- RETRY-LOOP (termination of a search for a non-orthogonal vector)
+
+_BILINEAR = ("dot", "vdot", "inner", "matmul", "mm", "mv", "tensordot", "einsum")
+
+
+def _bilinear_operands(e):
+    """operand expressions of a bilinear form: dot(a, b), a @ b, (a * b).sum(), sum(a * b)"""
+    import ast
+    from .model import norm
+    if isinstance(e, ast.Call):
+        tail = norm(e.func).rsplit(".", 1)[-1]
+        if tail in _BILINEAR:
+            args = [a for a in e.args if not isinstance(a, ast.Constant)]
+            if isinstance(e.func, ast.Attribute) and not norm(e.func.value) in ("tn", "torch", "np", "numpy"):
+                args = [e.func.value] + args      # a.dot(b)
+            return args if len(args) == 2 else None
+        if tail == "sum":
+            inner = e.func.value if isinstance(e.func, ast.Attribute) and norm(e.func.value) not in ("tn", "torch", "np", "numpy") else (e.args[0] if e.args else None)
+            if isinstance(inner, ast.BinOp) and isinstance(inner.op, ast.Mult):
+                return [inner.left, inner.right]
+        if tail in ("abs", "float", "item") and (e.args or isinstance(e.func, ast.Attribute)):
+            return _bilinear_operands(e.args[0] if e.args else e.func.value)
+    if isinstance(e, ast.BinOp) and isinstance(e.op, ast.MatMult):
+        return [e.left, e.right]
+    return None
+
+
+def _root_name(e):
+    """the local a view expression is taken of: r.squeeze() -> r, r[:, 0] -> r, tn.conj(r) -> r"""
+    import ast
+    while True:
+        if isinstance(e, ast.Name):
+            return e.id
+        if isinstance(e, ast.Call) and isinstance(e.func, ast.Attribute) and e.func.attr in ("squeeze", "flatten", "ravel", "reshape", "view", "t", "conj", "clone", "contiguous"):
+            e = e.func.value if not (isinstance(e.func.value, ast.Name) and e.func.value.id in ("tn", "torch", "np")) else (e.args[0] if e.args else None)
+            continue
+        if isinstance(e, ast.Subscript):
+            e = e.value
+            continue
+        if isinstance(e, ast.Attribute) and e.attr in ("T", "mT", "H"):
+            e = e.value
+            continue
+        return None
+
+
+def _zero_test_of(test, name, norm_vars):
+    """True: the test holds when the vector `name` is non-zero; False: it holds when it is zero; None: not such a test.
+    norm_vars: locals bound to norm(<name>)"""
+    import ast
+    from .model import norm
+    if isinstance(test, ast.UnaryOp) and isinstance(test.op, ast.Not):
+        inner = _zero_test_of(test.operand, name, norm_vars)
+        return None if inner is None else (not inner)
+    for v in norm_vars:
+        pol = _positivity_test(test, v)
+        if pol is not None:
+            return pol
+    if isinstance(test, ast.Compare) and len(test.ops) == 1:
+        for side, other, flip in ((test.left, test.comparators[0], False), (test.comparators[0], test.left, True)):
+            if _is_norm_call(side) and _norm_operand(side) is not None and _root_name(_norm_operand(side)) == name and isinstance(other, ast.Constant) and other.value == 0:
+                op = test.ops[0]
+                if isinstance(op, ast.Eq):
+                    return False
+                if isinstance(op, ast.NotEq):
+                    return True
+                if isinstance(op, (ast.Gt, ast.Lt)):
+                    return isinstance(op, ast.Lt) if flip else isinstance(op, ast.Gt)
+                if isinstance(op, (ast.LtE, ast.GtE)):
+                    return not (isinstance(op, ast.GtE) if flip else isinstance(op, ast.LtE))
+    if isinstance(test, ast.Call):
+        tail = norm(test.func).rsplit(".", 1)[-1]
+        if tail in ("any", "count_nonzero"):
+            arg = test.func.value if isinstance(test.func, ast.Attribute) and norm(test.func.value) not in ("tn", "torch", "np", "numpy") else (test.args[0] if test.args else None)
+            if arg is not None and _root_name(arg) == name:
+                return True
+    return None
+
+
+def rule_retry_loop(model: Model, fshort: str, rule="RETRY-LOOP", func=None):
+    """`while <bilinear>(a, v) == 0: v = <another try>` searches for a vector v that is not orthogonal to a.  When `a` is not re-bound in the
+    loop, the search cannot end for a = 0 (the form vanishes for every v): the loop must be dominated by a test that `a` is non-zero whose
+    other branch leaves, or carry that test in its own condition.  One obligation per such loop."""
+    import ast
+    from .model import norm
+    if func is None and not model.has_func(fshort):
+        return []
+    f = func if func is not None else model.func(fshort)
+    parents = {}
+    for a in ast.walk(f.node):
+        for c in ast.iter_child_nodes(a):
+            parents[id(c)] = a
+    obs = []
+    for w in own_walk(f.node):
+        if not isinstance(w, ast.While):
+            continue
+        conj = w.test.values if isinstance(w.test, ast.BoolOp) and isinstance(w.test.op, ast.And) else [w.test]
+        form = None
+        for c in conj:
+            if isinstance(c, ast.Compare) and len(c.ops) == 1 and isinstance(c.ops[0], ast.Eq):
+                for side, other in ((c.left, c.comparators[0]), (c.comparators[0], c.left)):
+                    if isinstance(other, ast.Constant) and other.value == 0 and not isinstance(other.value, bool):
+                        ops_ = _bilinear_operands(side)
+                        if ops_:
+                            form = (c, ops_)
+        if form is None:
+            continue
+        stored = {x.id for s in w.body for x in ast.walk(s) if isinstance(x, ast.Name) and isinstance(x.ctx, ast.Store)}
+        roots = [_root_name(o) for o in form[1]]
+        inv = [r for r in roots if r is not None and r not in stored]
+        k = f"{fshort}:{rule}:{norm(w.test)[:70]}"
+        if not inv or len([r for r in roots if r in stored]) == 0:
+            if None in roots:
+                obs.append(Ob(rule, k, ERROR, model.where(f, w), norm(w.test)[:90], "operands of the bilinear form not resolved to locals"))
+            continue        # both operands change (or none does: not a search)
+        a = inv[0]
+        norm_vars = {n.targets[0].id for n in ast.walk(f.node) if isinstance(n, ast.Assign) and len(n.targets) == 1 and isinstance(n.targets[0], ast.Name)
+                     and _is_norm_call(n.value) and _norm_operand(n.value) is not None and _root_name(_norm_operand(n.value)) == a}
+        verdict = None      # True guarded, False unguarded, None a test of `a` that is not understood
+        # in the condition itself
+        for c in conj:
+            if c is not form[0] and _zero_test_of(c, a, norm_vars) is True:
+                verdict = True
+        # dominating guard: an earlier `if` of an enclosing block whose zero branch leaves, or an enclosing `if` whose non-zero branch holds the loop
+        cur = w
+        unknown = False
+        while verdict is None and id(cur) in parents:
+            par = parents[id(cur)]
+            if isinstance(par, ast.If) and cur is not par.test:
+                pol = _zero_test_of(par.test, a, norm_vars)
+                if pol is not None and ((pol and cur in par.body) or (not pol and cur in par.orelse)):
+                    verdict = True
+                    break
+            for fld in ("body", "orelse", "finalbody"):
+                blk = getattr(par, fld, None)
+                if isinstance(blk, list) and cur in blk:
+                    for prev in reversed(blk[:blk.index(cur)]):
+                        if any(isinstance(x, ast.Name) and x.id == a and isinstance(x.ctx, ast.Store) for x in ast.walk(prev)):
+                            break       # `a` is (re)bound here: earlier tests speak of another value
+                        if isinstance(prev, ast.If):
+                            pol = _zero_test_of(prev.test, a, norm_vars)
+                            zero_branch = None if pol is None else (prev.orelse if pol else prev.body)
+                            if zero_branch and isinstance(zero_branch[-1], (ast.Return, ast.Raise)):
+                                verdict = True
+                                break
+                            if pol is None and any(isinstance(x, ast.Name) and (x.id == a or x.id in norm_vars) for x in ast.walk(prev.test)):
+                                unknown = True
+                    if verdict:
+                        break
+            if isinstance(par, (ast.FunctionDef, ast.AsyncFunctionDef)):
+                break
+            cur = par
+        if verdict:
+            obs.append(Ob(rule, k, OK, model.where(f, w), norm(w.test)[:90], f"the search runs only when `{a}` is non-zero"))
+        elif unknown:
+            obs.append(Ob(rule, k, ERROR, model.where(f, w), norm(w.test)[:90], f"a test that reads `{a}` precedes the loop but is not one of the recognised zero tests"))
+        else:
+            obs.append(Ob(rule, k, VIOLATED, model.where(f, w), norm(w.test)[:90],
+                          f"{fshort}: `while {norm(w.test)[:80]}` looks for a vector not orthogonal to `{a}`, and `{a}` is not changed by the loop: for "
+                          f"`{a}` = 0 the form is zero for every candidate and the loop never ends. `{a}` is the residual of the initial guess, which is "
+                          f"exactly zero whenever the guess already solves the (local) system - e.g. amen_solve(eye, ones, x0=ones, max_full=0, local_solver=2). "
+                          f"No test of `{a}` against zero dominates the loop"))
     return obs
